@@ -65,7 +65,7 @@ def legs(tier, for_replay=False):
     if not for_replay:
         dom.valid_maps(2)
         circ.warmup('py')
-    k3, k2 = (2, 3) if quick else (4, 4)
+    k3, k2 = (2, 4) if quick else (4, 4)
     p3 = circ.programs('py', 3, k3)
     p2 = circ.programs('py', 2, k2)
     out = [
